@@ -259,6 +259,8 @@ def run(model, tier="quick"):
     n_writers, caches = run_cache(model, res, "AaveV3Market", "C01")
     res.floor("aave_cache_writer_methods", n_writers, 6)
     res.floor("obligations", len(res.obligations), 17)
+    from .C02 import binning_rule
+    res.units["resampling_sites"] = binning_rule(model, res)     # wallet prices and position rows of a bar come from the same minute
     from ..rules.fresh import fresh_rule
     if "R-FRESH" not in res.rules:
         res.rules.append("R-FRESH")
